@@ -15,13 +15,16 @@ theorem translated : Gen.isFormattingValidOk = true ∧ Gen.isFormattingParsable
 
 /-- every setting that *starts* somewhere is asked, none that only stops -/
 theorem valid_is_code (x : AStr) : Gen.isFormattingValid x.fmts = x.isFormattingValid := by
-  simp [Gen.isFormattingValid, AStr.isFormattingValid, List.all_map, Function.comp_def]
+  rw [Bool.eq_iff_iff]
+  simp [Gen.isFormattingValid, AStr.isFormattingValid] <;> grind
 
 theorem parsable_is_code (x : AStr) : Gen.isFormattingParsable x.fmts = x.isFormattingParsable := by
-  simp [Gen.isFormattingParsable, AStr.isFormattingParsable, List.all_map, Function.comp_def]
+  rw [Bool.eq_iff_iff]
+  simp [Gen.isFormattingParsable, AStr.isFormattingParsable] <;> grind
 
 /-- a marker point is "something" when it starts or stops a setting -/
 theorem point_bool_is_code (p : Point) : Gen.pointBool p = p.nonEmpty := by
-  simp [Gen.pointBool, Point.nonEmpty]
+  rw [Bool.eq_iff_iff]
+  simp [Gen.pointBool, Point.nonEmpty] <;> grind
 
 end C15c
